@@ -25,7 +25,8 @@ Segs == <<
   "x", "y+1", "[a, b]", "(c, d)", "{e: f, g: h}", "'i, j'", "\"k)\"", "lambda: 1", "if", "$HOME",          \* 1-10
   "$(ls, -l)", "![a b]", "@(p, q)", "x y z", "1 +", "..", "*args", "**kw", "k=v", "f(1)(2)",               \* 11-20
   "[(,)]", "(a, # c\n b)", "(a,\n b)", "'''t,\nu'''", "f'{a},{b}'", "f'{v, w}'", "f'a,b'", "f'{k}){v}'", "g!(h, i)", "~u00e9~", \* 21-30
-  "not in", "->", "${u}", "`*.py`", "p'/q'", "a ? b", "!", "0x1F", "{,}", "'\\''"                          \* 31-40
+  "not in", "->", "${u}", "`*.py`", "p'/q'", "a ? b", "!", "0x1F", "{,}", "'\\''",                         \* 31-40
+  "~ufb01~le", "~u00b5~s", "~uff41~~uff42~", "x~u00b2~", "~u2160~v", "K~u212a~"                                        \* 41-46 compatibility characters (NFKC would change them)
 >>
 Blanks == {"", " "}
 
@@ -62,15 +63,17 @@ CallCase == [kind |-> "call", src |-> CallSrc, want |-> [i \in 1..Len(args) |-> 
 
 \* ---------------------------------------------------------------- subprocess macro
 Opens == << <<"$(", ")">>, <<"$[", "]">>, <<"!(", ")">>, <<"![", "]">> >>
-Rests == <<"hello  world", "-c 'x' (a b) [c]", "a, b; c", "if x: y", "$HOME `*`", "--opt=1 2>&1", "~u00e9~ \"q\"", "1 + + 2", "", "x">>
+Rests == <<"hello  world", "-c 'x' (a b) [c]", "a, b; c", "if x: y", "$HOME `*`", "--opt=1 2>&1", "~u00e9~ \"q\"", "1 + + 2", "", "x",
+           "cat ~ufb01~le.txt ~u00b5~s", "f(a, b) xs[1: 2] tail", "( a ( b ) ) [ c ]">>
 Pads == {"", " ", "  "}
 ProcCases == { [kind |-> "proc", src |-> Hosts[h][1] \o Opens[o][1] \o "echo!" \o pl \o Rests[r] \o pr \o Opens[o][2] \o Hosts[h][2] \o "\n" \o Followers[f],
-                want |-> <<"echo", Rests[r]>>, follower |-> Followers[f], host |-> h]
+                want |-> <<"echo", Rests[r]>>, follower |-> Followers[f], host |-> h,
+                callform |-> (r = 13 /\ pl = "")]            \* "cmd!(" would be a call macro: not a case
               : h \in {1, 2, 3, 5}, o \in 1..Len(Opens), r \in 1..Len(Rests), pl \in Pads, pr \in Pads, f \in {1, 2} }
 
 \* ---------------------------------------------------------------- with macro
 \* a block line: <<extra indentation levels, text>>; text "" = blank line
-LineTexts == <<"a b c", "d = [1, 2]", "", "# c", "if q:", "$(ls) x", "'s, t'", "else: (", "~u00e9~">>
+LineTexts == <<"a b c", "d = [1, 2]", "", "# c", "if q:", "$(ls) x", "'s, t'", "else: (", "~u00e9~", "~ufb01~le ~u00b5~s">>
 Units == <<"    ", "\t", "  ">>
 Outer == <<"", "if c:\n">>     \* the with statement at top level, or inside an if block
 VARIABLES lines, unit, outer
@@ -116,5 +119,5 @@ Next == IF Kind = "call" THEN CallNext /\ UNCHANGED <<lines, unit, outer>>
 Export ==
   CASE Kind = "call" -> (done => CSVWrite("%1$s", <<ToJson(CallCase)>>, IOEnv.OUT))
     [] Kind = "with" -> (done => CSVWrite("%1$s", <<ToJson(WithCase)>>, IOEnv.OUT))
-    [] OTHER -> \A c \in ProcCases \cup OneLiners : CSVWrite("%1$s", <<ToJson(c)>>, IOEnv.OUT)
+    [] OTHER -> \A c \in {x \in ProcCases : ~x.callform} \cup OneLiners : CSVWrite("%1$s", <<ToJson(c)>>, IOEnv.OUT)
 =============================================================================
